@@ -31,6 +31,7 @@ type Ev struct {
 	ID   int64         `json:"id,omitempty"`   // identity of an update notification
 	Err  string        `json:"err,omitempty"`  // error text; "" = success
 	Info string        `json:"info,omitempty"` // kind-specific detail
+	Call int           `json:"call,omitempty"` // overlap part: identity of the external call (pairs call and return events)
 }
 
 func (e Ev) String() string {
@@ -40,6 +41,9 @@ func (e Ev) String() string {
 	}
 	if e.ID != 0 {
 		s += fmt.Sprintf(" id=%d", e.ID)
+	}
+	if e.Call != 0 {
+		s += fmt.Sprintf(" call=%d", e.Call)
 	}
 	if e.Info != "" {
 		s += " [" + e.Info + "]"
@@ -134,11 +138,16 @@ type world struct {
 	cost       map[int64]time.Duration
 	refs       [nAddrs]int
 	harnessErr string
+	ov         *overlap // non-nil in the overlap part only (holds, aims, call identities); see overlap_run.go
 }
 
 func (w *world) rec(tgt, kind string, n int, id int64, err error, info string) {
+	w.recCall(tgt, kind, n, id, err, info, 0)
+}
+
+func (w *world) recCall(tgt, kind string, n int, id int64, err error, info string, call int) {
 	w.mu.Lock()
-	e := Ev{I: len(w.trace), At: time.Since(w.t0), Tgt: tgt, Kind: kind, N: n, ID: id, Info: info}
+	e := Ev{I: len(w.trace), At: time.Since(w.t0), Tgt: tgt, Kind: kind, N: n, ID: id, Info: info, Call: call}
 	if err != nil {
 		e.Err = err.Error()
 		if e.Err == "" {
@@ -146,6 +155,9 @@ func (w *world) rec(tgt, kind string, n int, id int64, err error, info string) {
 		}
 	}
 	w.trace = append(w.trace, e)
+	if w.ov != nil {
+		w.ov.observe(&e)
+	}
 	w.mu.Unlock()
 }
 
@@ -211,14 +223,23 @@ func (w *world) Connection(ctx context.Context, addr, dialer string) (*grpc.Clie
 	if addr != addrOf(tg.spec.Addr) {
 		w.flagHarness("target %s dialled %q, configured %q", name, addr, addrOf(tg.spec.Addr))
 	}
+	if w.ov != nil {
+		w.ov.noteDial(name, ar.att)
+	}
 	w.rec(name, kDialStart, ar.n, 0, nil, addr)
 	switch ar.att.Dial {
 	case "hang":
 		<-ctx.Done()
+		if w.ov != nil {
+			w.ov.park(name, "dial", ar.n)
+		}
 		w.rec(name, kDialResult, ar.n, 0, ctx.Err(), "hang")
 		return nil, func() {}, ctx.Err()
 	case "refused":
 		if err := sleepCtx(ctx, ms(ar.att.DialDelayMs)); err != nil {
+			if w.ov != nil {
+				w.ov.park(name, "dial", ar.n)
+			}
 			w.rec(name, kDialResult, ar.n, 0, err, "ctx")
 			return nil, func() {}, err
 		}
@@ -226,6 +247,9 @@ func (w *world) Connection(ctx context.Context, addr, dialer string) (*grpc.Clie
 		return nil, func() {}, errRefused
 	}
 	if err := sleepCtx(ctx, ms(ar.att.DialDelayMs)); err != nil {
+		if w.ov != nil {
+			w.ov.park(name, "dial", ar.n)
+		}
 		w.rec(name, kDialResult, ar.n, 0, err, "ctx")
 		return nil, func() {}, err
 	}
@@ -326,9 +350,18 @@ func (s *stream) Recv() (*gpb.SubscribeResponse, error) {
 		return nil, s.fin
 	}
 	fail := func(err error, why string) (*gpb.SubscribeResponse, error) {
+		if why == "ctx" && s.w.ov != nil {
+			// overlap part: the instant the stream learnt of the cancellation is an
+			// event of its own, because the return may be held back
+			s.w.rec(name, kRecvCancel, s.ar.n, 0, err, "")
+			s.w.ov.park(name, "recv", s.ar.n)
+		}
 		s.fin = err
 		s.w.rec(name, kRecvRet, s.ar.n, 0, err, why)
 		return nil, err
+	}
+	if s.w.ov != nil {
+		s.w.ov.noteRecv(s)
 	}
 	if s.pos < len(s.ar.att.Msgs) {
 		m := s.ar.att.Msgs[s.pos]
